@@ -87,7 +87,9 @@ class PyFileSearcher(AbstractSearcher):
                     raise error.PySmiFileNotModifiedError()
 
                 else:
-                    raise error.PySmiFileNotFoundError('older file %s exists' % mibname, searcher=self)
+                    # an outdated .pyc must not hide a fresh source file
+                    debug.logger & debug.flagSearcher and debug.logger('older file %s exists' % f)
+                    continue
 
             else:
                 debug.logger & debug.flagSearcher and debug.logger('bad magic in %s' % f)
